@@ -185,7 +185,8 @@ func parseStrings8(b []byte) ([]string, error) { // vector of <1..255> strings
 
 // normalise: the hello "modulo GREASE and per-connection material": GREASE values -> 0x0a0a in suites, extension types,
 // supported_groups, key_share groups and supported_versions; key_exchange bytes of non-GREASE shares blanked (length kept);
-// padding and pre_shared_key bodies dropped (their presence and position stay).
+// pre_shared_key bodies dropped (presence and position stay). The padding extension is compared like any other parameter
+// (presence and body length: its bytes are zero).
 func (w *whello) normalise() (suites []uint16, exts []wext) {
 	for _, s := range w.suites {
 		suites = append(suites, unGrease(s))
@@ -226,7 +227,7 @@ func (w *whello) normalise() (suites []uint16, exts []wext) {
 				}
 				n.data = b.Bytes()
 			}
-		case 21, 41:
+		case 41:
 			n.data = nil
 		}
 		exts = append(exts, n)
